@@ -8,8 +8,12 @@ import machine
 from props import c03
 
 ID = "C04"
-LEAN_MODULES = ["QProps.C04", "QProps.C04h"]
+LEAN_MODULES = ["QProps.C04", "QProps.C04h", "QProps.C04a"]
 THEOREMS = [
+    "MC.ainv_validate",
+    "MC.ainv_trial_of",
+    "MC.forces_history",
+    "MC.forces_stale_when_aliased",
     "MC.energy_history",
     "MC.energy_history_grand",
     "MC.evals_trial_of",
@@ -33,14 +37,15 @@ THEOREMS = [
     "MC.revertCalc_fresh_pos",
     "MC.peratom_unusable_after_rejected_exchange",
 ]
-RULE = ("scripted histories (as C03) on real Canonical/HamiltonianCanonical/Isobaric/Isotension/GrandCanonical objects with three "
-        "ASE-protocol calculators (stateless, result-caching, per-atom internal state), a logger-style energy read after every "
+RULE = ("scripted histories (as C03) on real Canonical/HamiltonianCanonical/Isobaric/Isotension/GrandCanonical objects with four "
+        "ASE-protocol calculators (stateless, result-caching, result-caching with arrays written in place into one buffer as ase's EMT does, "
+        "per-atom internal state), a logger-style energy read and a get_forces() read after every "
         "trial, an independent from-scratch evaluation with a fresh calculator after every trial; non-trivial = a history with at "
         "least one rejected trial followed by another trial; distinct = distinct (history, calculator style)")
 ASSUMPTIONS = c03.ASSUMPTIONS + ["calculators follow ASE's get_property/check_state/reset/calculate protocol",
                                  "the energy is a function of positions, numbers and cell (what ASE's compare_atoms watches)"]
 
-STYLES = ["caching", "caching", "stateless", "peratom"]
+STYLES = ["caching", "inplace", "stateless", "peratom", "caching", "inplace"]
 
 
 def calc_factory(style):
@@ -53,6 +58,7 @@ def calc_factory(style):
             super().__init__()
             self.nevals = 0
             self.state = None
+            self.fbuf = None      # style "inplace": one persistent force buffer, written in place (as ase's EMT does)
 
         def check_state(self, atoms, tol=1e-15):
             if style == "stateless":
@@ -68,9 +74,27 @@ def calc_factory(style):
                     raise ValueError("stale per-atom state")
             self.nevals += 1
             p = self.atoms.positions
-            self.results = {"energy": float((p**2).sum() + self.atoms.cell.array.trace()), "forces": -2 * p}
+            if style == "inplace":
+                if self.fbuf is None or len(self.fbuf) != len(p):
+                    self.fbuf = np.empty((len(p), 3))
+                self.fbuf[:] = -2 * p
+                self.results["energy"] = float((p**2).sum() + self.atoms.cell.array.trace())
+                self.results["forces"] = self.fbuf
+            else:
+                self.results = {"energy": float((p**2).sum() + self.atoms.cell.array.trace()), "forces": -2 * p}
 
     return StyleCalc
+
+
+def force_sum(f):
+    """the wire checksum of a force array (`MC.forceSum`)"""
+    return machine._int(sum((i + 1) * (v[0] + 2 * v[1] + 3 * v[2]) for i, v in enumerate(f)))
+
+
+def fresh_forces(atoms):
+    a = atoms.copy()
+    a.calc = calc_factory("caching")()
+    return a.get_forces()
 
 
 def fresh_energy(atoms):
@@ -107,6 +131,11 @@ class EnergyHistories(common.Suite):
             try:
                 o = sim.run_trial(tr)
                 reported = sim.atoms.get_potential_energy()  # what the logger reads after the step
+                n_probe = sim.calc.nevals
+                forces = sim.atoms.get_forces()               # … and any other cached result
+                raw = sim.atoms.get_forces(apply_constraint=False)
+                if case["style"] == "stateless":
+                    sim.calc.nevals = n_probe                 # our own probe, not the simulation's evaluation
             except Exception as ex:  # noqa: BLE001
                 import traceback
 
@@ -119,12 +148,13 @@ class EnergyHistories(common.Suite):
             le = c.last_potential_energy
             out["outcomes"].append(o)
             out["lines"].append(sim.snapshot(o) + f" e={machine._int(reported)} le={machine._int(le)} "
-                                f"ev={sim.calc.nevals - ev0 + 1} br=0")
+                                f"ev={sim.calc.nevals - ev0 + 1} br=0 fk={force_sum(raw)}")
             out["checks"].append({
                 "reported": float(reported), "reference": float(le), "fresh": float(fresh_energy(sim.atoms)),
                 "last_positions_ok": bool(np.array_equal(c.last_positions, sim.atoms.positions)),
                 "last_cell_ok": (not hasattr(c, "last_cell")) or bool(np.array_equal(np.asarray(c.last_cell), sim.atoms.cell.array)),
                 "devals": sim.calc.nevals - ev_before,
+                "forces_dev": float(np.abs(forces - fresh_forces(sim.atoms)).max()) if len(sim.atoms) else 0.0,
                 "cached_results_energy": sim.calc.results.get("energy"),
                 "calc_atoms_match": sim.calc.atoms is not None and len(sim.calc.atoms) == len(sim.atoms)
                 and bool(np.array_equal(sim.calc.atoms.positions, sim.atoms.positions)),
@@ -133,7 +163,7 @@ class EnergyHistories(common.Suite):
 
     def model_lines(self, case):
         line = machine.model_line(case)
-        return ["mc " + case["style"] + " 1 " + line[len("mm "):]]
+        return ["mc " + case["style"] + " 1 " + line[len("mm "):]]   # style "inplace": caching + aliased result arrays
 
     def model_obs(self, case, outs):
         return {"lines": outs[0].split(" | ")}
@@ -170,9 +200,12 @@ class EnergyHistories(common.Suite):
                 out.append((f"energy:reported-stale:{ts}:{what}:{style}", f"trial {k}: reports {ch['reported']}, from scratch {ch['fresh']}"))
             if ch["reference"] != ch["fresh"]:
                 out.append((f"energy:reference-stale:{ts}:{what}:{style}", f"trial {k}: reference {ch['reference']}, from scratch {ch['fresh']}"))
+            if ch["forces_dev"] != 0.0:
+                out.append((f"results:forces-of-another-configuration:{ts}:{what}:{style}",
+                            f"trial {k}: atoms.get_forces() differs from a from-scratch evaluation by {ch['forces_dev']}"))
             if not ch["last_positions_ok"] or not ch["last_cell_ok"]:
                 out.append((f"energy:remembered-geometry:{ts}:{what}", f"trial {k}: remembered positions/cell differ from the current ones"))
-            if style == "caching" and case["ens"] != "hamiltonian":
+            if style in ("caching", "inplace") and case["ens"] != "hamiltonian":
                 limit = 0 if o == "N" else 1
                 if ch["devals"] > limit:
                     out.append((f"energy:extra-evaluation:{ts}:{what}", f"trial {k}: {ch['devals']} evaluations (trial + logger read)"))
